@@ -40,18 +40,25 @@ CLAIMS = {
          "pending view), C12_reject_unchanged_*, C12_dup_rejected, C12_remove_ok_iff, C12_build_pending, C12_noop_close.", "4 C12", L_NOTE,
          "Lean 4 theorem (state-machine invariants) + correspondence incl. invalid-request stream"),
  "C18": ("Theorems C18_records_answer (every accepted addition records exactly the numbers supplied by the resolver/override) and "
-         "C18_shape_preserved (a close changes nothing but offsets); layout decisions in the model read only those numbers. Decisive "
+         "C18_shape_preserved (a close changes nothing but offsets); C18_layout_factor: two histories that agree on the supplied sizes, alignments, "
+         "removals and strategies (whatever the names, type names, uninit flags) yield the same variants and the same offset for every datum - every "
+         "strategy commutes with erasing everything but size/alignment/offset (Proofs/LayoutFactor.lean). Decisive for the host-independence "
          "part is the tie: channel L drives typed/uninit/dynamic/override/copy entry points under synthetic resolvers whose answers "
          "differ from the host's; C18_table_registered / _keeps / _duplicate / _lookup_normalised over the table model, tied by channel T (standard table vs host resolver, JSON round trip, whitespace lookups, duplicate registration).", "4 C18", L_NOTE,
-         "Lean 4 theorem + correspondence under synthetic type tables"),
+         "Lean 4 theorems (erasure commutation of every strategy; table model) + correspondence under synthetic type tables"),
  "C19": ("The model is a pure function of the request list (C19_layout_is_function_partial, C19_size_order_stable); the property "
          "is carried by the tie: implementation = that function on every history, in one process (channel L) and across two "
          "separately started processes (byte comparison). Partial by nature.", "4 C19", L_NOTE,
          "Lean 4 model-as-function + two-process byte comparison"),
- "C20": ("C20_one_entry_per_variant_partial (variant map has one entry per source variant, in order) proved; the rest of the "
-         "statement (paired variants carry the same data, single id correspondence) is checked by channel L `replay` requests "
-         "against the Lean replay model and by an independent oracle on the implementation's output. Full theorem is a goal.", "4 C20", L_NOTE,
-         "Lean 4 theorem (partial) + correspondence"),
+ "C20": ("C20_replay: for every source definition built from any valid history and every target strategy (four native, two generic) the "
+         "conversion helper succeeds (no builder error, no indexing or strategy panic), creates exactly one target variant per source variant, "
+         "returns the map k -> k, leaves the target buildable, and relates source and target data by one injective id map: target variant k is a "
+         "permutation of the image of source variant k under that single map, and corresponding data have the same name, type, size, alignment "
+         "and uninit flag (C20_same_type_information: equal multisets of type information per pair). Loop invariant RInv by induction over the "
+         "source variants; the premise (ids never reused, consecutive variants differ, unique names) is proved for every builder output "
+         "(builder_srcChain). C20_map_keys_any_source for arbitrary sources. Channel L `replay` requests compare the implementation with the Lean "
+         "replay model; an independent oracle checks the implementation's output.", "4 C20", L_NOTE,
+         "Lean 4 theorem (loop invariant over source variants, induction over histories) + correspondence"),
  "C08": ("Refinement theorem: the unsafe loop, modelled slot by slot with use-after-move/overwrite/type-confusion as explicit errors, "
          "equals the plain left-to-right pass for every input length and every converter (tryConvert_refines, three-region "
          "invariant as a representation function); corollaries C08_result, C08_calls, C08_prev_is_last_output, C08_all_abandoned.", "4 C08", V_NOTE,
@@ -94,8 +101,9 @@ CLAIMS = {
          "drop of either side, compared with the model and an independent ledger.", "4 C16", X_NOTE,
          "Lean 4 theorems over a value-level clone model + correspondence on compiled generated code"),
  "C17": ("C17_denote (for type syntax trees of any depth: rewriting does not change the canonical long form), C17_idem, C17_short_long (short and "
-         "fully qualified spellings of the five std types are recorded identically, at any position). Whitespace-insensitivity and the "
-         "parser/printer are carried by the tie: channel T compares the real normaliser with the Lean lexer+parser+rewrite+printer on ~7000 "
+         "fully qualified spellings of the five std types are recorded identically, at any position), C17_whitespace (two spellings of the same "
+         "token sequence with any amount of whitespace before/between/after the tokens are normalised and looked up identically: lexer invariant by "
+         "induction over the token list). The parser/printer pair (syn / quote) is modelled and carried by the tie: channel T compares the real normaliser with the Lean lexer+parser+rewrite+printer on ~7000 "
          "spellings of ~1200 concrete types, and a rustc probe `fn(T) -> <recorded name>` per type validates the resolution hypothesis.", "4 C17",
          "Trusted: Lean kernel + standard axioms; syn/quote are modelled by a hand-written lexer/parser/printer (tied by channel T); rustc name resolution assumed as the Prelude hypothesis and validated by compile probes.",
          "Lean 4 theorems (mutual structural induction over type syntax) + correspondence on a type catalogue + rustc probes"),
